@@ -815,6 +815,20 @@ void KMeansppCenters(matrix *m,
     for(i = 0; i < D->size; i++){
       D_square->data[i] = square(D->data[i]);
     }
+    /* every point left coincides with a selected centre: the weighted draw below can never
+     * succeed, take the first point not selected yet (stop if there is none) */
+    for(A = 0.f, i = 0; i < D_square->size; i++){
+      A += D_square->data[i];
+    }
+    if(!(A > 0.f)){
+      for(i = 0; i < m->row && UIVectorHasValue(selections, i) != 1; i++);
+      if(i == m->row){
+        break;
+      }
+      UIVectorAppend(selections, i);
+      q--;
+      continue;
+    }
     /* Step 4 */
     A = 0.f;
     B = 0.f;
